@@ -61,7 +61,7 @@ def setup():
 
 
 # ------------------------------------------------------------------ scenario generator
-CV_KINDS = ["distanceZ", "distance", "dihedral", "distanceVec", "gyration", "angle", "combo", "fitdist", "rmsd"]
+CV_KINDS = ["distanceZ", "distance", "dihedral", "distanceVec", "gyration", "angle", "combo", "fitdist", "rmsd", "lincomb"]
 
 
 def gen_colvar(r, name, ext_ok=True):
@@ -118,6 +118,10 @@ def gen_colvar(r, name, ext_ok=True):
               "      fittingGroup {", "        atomNumbers %d %d %d" % tuple(ids), "      }",
               "      refPositions (0.0, 0.0, 0.0) (1.0, 0.0, 0.0) (0.0, 1.0, 0.5)", "    }",
               "    group2 { atomNumbers %d }" % a(), "  }"]
+    elif kind == "lincomb":
+        # a component made of components: the atom groups of the nested components are registered a second time in the outer one
+        # (two dependency parents per group; the nested components are reachable only as parents of their groups)
+        L += ["  linearCombination {", "    name lc"] + ["  " + x for x in comp("distanceZ")] + ["  " + x for x in comp("distance")] + ["  }"]
     elif kind == "rmsd":
         ids = r.sample(range(1, NATOMS + 1), 3)
         L += ["  rmsd {", "    atoms { atomNumbers %d %d %d }" % tuple(ids),
@@ -133,8 +137,10 @@ def gen_colvar(r, name, ext_ok=True):
 BIAS_KINDS = ["harmonic", "harmonicWalls", "linear", "histogram", "abf", "metadynamics"]
 
 
-def gen_bias(r, name, cvs):
-    """cvs: list of live colvar dicts; returns None when no suitable variable exists"""
+def gen_bias(r, name, cvs, counters=None):
+    """cvs: list of live colvar dicts; returns None when no suitable variable exists.
+    counters: per-kind number of biases defined so far (colvarmodule::num_biases_types_used_: only grows, cleared by reset);
+    an UNNAMED bias gets the default name <kind in lower case><rank>"""
     kind = r.choice(BIAS_KINDS)
     if kind in ("abf", "metadynamics", "histogram", "harmonicWalls", "linear"):
         cand = [c for c in cvs if c["scalar"] and (c["opts"].get("grid") or kind in ("harmonicWalls", "linear"))]
@@ -144,11 +150,17 @@ def gen_bias(r, name, cvs):
         return None
     n = 1 if (kind == "abf" or r.random() < 0.7) else min(2, len(cand))
     sel = r.sample(cand, n)
+    unnamed = False
+    if counters is not None:
+        counters[kind] = counters.get(kind, 0) + 1
+        if r.random() < 0.4:
+            unnamed = True
+            name = kind.lower() + str(counters[kind])
     if kind == "harmonic" and n == 1 and r.random() < 0.15:
         sel = sel + sel          # `colvars x x`: the same variable twice (children/parents with multiplicity 2)
         n = 2
     names = [c["name"] for c in sel]
-    L = [kind + " {", "  name " + name, "  colvars " + " ".join(names)]
+    L = [kind + " {"] + ([] if unnamed else ["  name " + name]) + ["  colvars " + " ".join(names)]
     if kind == "harmonic":
         cs = []
         for c in sel:
@@ -173,7 +185,8 @@ def gen_bias(r, name, cvs):
     if kind in ("histogram",) and r.random() < 0.3:
         L.append("  stepZeroData on")
     L.append("}")
-    return {"name": name, "kind": kind, "cvs": names, "conf": "\n".join(L) + "\n"}
+    return {"name": name, "kind": kind, "cvs": names, "conf": "\n".join(L) + "\n", "unnamed": unnamed,
+            "rank": counters[kind] if counters is not None else None}
 
 
 def gen_sequence(r, k, length, with_set=True):
@@ -181,6 +194,7 @@ def gen_sequence(r, k, length, with_set=True):
     Returns list of events; each event is a dict with 'op' and what it concerns."""
     ev = []
     cvs, biases = [], []
+    counters = {}
     ncv = nb = 0
     samestep = 1 if r.random() < 0.8 else 0
     for i in range(length):
@@ -190,7 +204,7 @@ def gen_sequence(r, k, length, with_set=True):
             cvs.append(c)
             ev.append({"op": "addcv", "cv": c})
         elif x < 0.45:
-            b = gen_bias(r, "b%d" % nb, cvs)
+            b = gen_bias(r, "b%d" % nb, cvs, counters)
             if b is None:
                 continue
             nb += 1
@@ -206,7 +220,11 @@ def gen_sequence(r, k, length, with_set=True):
             ev.append({"op": "delcv", "name": c["name"], "also": [b["name"] for b in gone]})
         elif x < 0.68:
             cvs, biases = [], []
+            counters.clear()
             ev.append({"op": "reset"})
+        elif x < 0.71:
+            # the state is written (text or binary) and read back in the same session: everything is found again by NAME
+            ev.append({"op": "saveload", "fmt": r.choice(["text", "binary"]), "file": "st%d" % i})
         elif x < 0.86:
             pos = [(a, V.dyadic(r, -3, 3, 4), V.dyadic(r, -3, 3, 4), V.dyadic(r, -3, 3, 4)) for a in range(1, NATOMS + 1)]
             ev.append({"op": "step", "pos": pos})
@@ -234,7 +252,7 @@ ENUM_ALPHABET = ["A", "B", "H", "G", "DB", "DV", "R", "S"]
 def enum_sequences(maxlen):
     """ALL sequences up to length maxlen over {A: add variable (distance 1-2, outputTotalForce), B: add variable (distance with
     a fitting group, shares atom 2), H: add harmonic (timeStepFactor 2) on the first live variable, G: add harmonic on every
-    live variable (at most 2), DB: delete the last live bias, DV: delete the first live variable, R: reset, S: step};
+    live variable (at most 2), DB: delete the OLDEST live bias (the harmonic restraints are unnamed), DV: delete the first live variable, R: reset, S: step};
     a sequence whose operation has nothing to act on is dropped (it is not a history); a final step is appended"""
     import itertools
     k = 0
@@ -258,15 +276,16 @@ def enum_sequences(maxlen):
                     if not cvs:
                         ok = False; break
                     sel = cvs[:1] if w == "H" else cvs[:2]
-                    name = "e%s%d" % (w.lower(), nb); nb += 1
-                    conf = "harmonic {\n  name %s\n  colvars %s\n  centers %s\n  forceConstant 2.0\n%s}\n" % (
-                        name, " ".join(c["name"] for c in sel), " ".join(["0.5"] * len(sel)), "  timeStepFactor 2\n" if w == "H" else "")
-                    b = {"name": name, "kind": "harmonic", "cvs": [c["name"] for c in sel], "conf": conf}
+                    nb += 1                      # both kinds are UNNAMED harmonic restraints: default names harmonic<rank>
+                    name = "harmonic%d" % nb
+                    conf = "harmonic {\n  colvars %s\n  centers %s\n  forceConstant 2.0\n%s}\n" % (
+                        " ".join(c["name"] for c in sel), " ".join(["0.5"] * len(sel)), "  timeStepFactor 2\n" if w == "H" else "")
+                    b = {"name": name, "kind": "harmonic", "cvs": [c["name"] for c in sel], "conf": conf, "unnamed": True, "rank": nb}
                     biases.append(b); ev.append({"op": "addbias", "bias": b})
                 elif w == "DB":
                     if not biases:
                         ok = False; break
-                    b = biases.pop(); ev.append({"op": "delbias", "name": b["name"]})
+                    b = biases.pop(0); ev.append({"op": "delbias", "name": b["name"]})     # the OLDEST live bias
                 elif w == "DV":
                     if not cvs:
                         ok = False; break
@@ -277,7 +296,7 @@ def enum_sequences(maxlen):
                 elif w == "R":
                     if not cvs and not biases:
                         ok = False; break
-                    cvs, biases = [], []; ev.append({"op": "reset"})
+                    cvs, biases = [], []; nb = 0; ev.append({"op": "reset"})
                 elif w == "S":
                     nstep += 1
                     ev.append({"op": "step", "pos": [(a, 0.5 * a + 0.25 * nstep, 0.25 * ((a * 7 + nstep) % 5) - 0.5, 0.125 * ((a * 3) % 7) + 0.25 * nstep) for a in range(1, NATOMS + 1)]})
@@ -315,6 +334,8 @@ def event_lines(e):
         return ["pos %d %s %s %s" % (a, V.hexf(x), V.hexf(y), V.hexf(z)) for (a, x, y, z) in e["pos"]] + ["step"]
     if op == "set":
         return ["scriptset %s %s %d %d" % (e["kind"], e["name"], e["fid"], e["val"])]
+    if op == "saveload":
+        return ["save %s %s.colvars.state" % (e["fmt"], e["file"]), "load %s" % e["file"]]
     return []
 
 
@@ -391,6 +412,11 @@ def last_step_block(text):
         if not w:
             continue
         if w[0] in ("STEP", "ENERGY", "CV", "BIAS", "ATOMF"):
+            if w[0] == "BIAS":
+                # biases are compared by creation order: the default name of an unnamed bias depends on how many biases of its
+                # type were defined before it, deleted ones included
+                nbias = sum(1 for x in obs if x.startswith("BIAS "))
+                l = " ".join(["BIAS", "#%d" % nbias] + w[2:])
             obs.append(l)
         elif w[0] in ("echo", "DEPS", "SCRIPT", "CONFIG"):
             break
@@ -511,11 +537,22 @@ def shape_tokens(avail):
     return [str(len(avail))] + [str(a) for a in avail]
 
 
-def module_case(ev, blk, prev, cur, lag):
+def tsf_map(seq):
+    """timeStepFactor of every variable / bias defined in a history, by dump description"""
+    m = {}
+    for e in seq["events"]:
+        if e["op"] in ("addcv", "addbias"):
+            ob = e["cv"] if e["op"] == "addcv" else e["bias"]
+            t = re.search(r"timeStepFactor\s+(\d+)", ob["conf"])
+            m[("colvar_" if e["op"] == "addcv" else "bias_") + ob["name"]] = int(t.group(1)) if t else 1
+    return m
+
+
+def module_case(ev, blk, prev, cur, lag, tsfs=None):
     """the model's module-level operation that corresponds to a history event, as a driver line, or None.
     Returns (line, compare_feature_states)"""
-    if not D.encodable(prev):
-        return None
+    if not D.encodable(prev) or not D.encodable(cur):
+        return None        # e.g. nested components (linearCombination): atom groups with a second parent that is not a child of anything
     head = "MOP %d %d " % (lag, FUEL)
     tail = " " + D.encode_mstate(prev, NATOMS)
     op = ev["op"]
@@ -527,6 +564,16 @@ def module_case(ev, blk, prev, cur, lag):
         return (head + "deletecolvar %d" % k + tail, True) if k is not None else None
     if op == "reset":
         return (head + "reset" + tail, True)
+    if op == "step" and tsfs is not None:
+        # the dependency part of calc_colvars: awake/asleep scheduling of biases, then variables, with timeStepFactor > 1
+        st = re.search(r"(?m)^STEP (\d+) err=ok", blk)
+        if not st or any(o["cls"] in (0, 1) and o["desc"] not in tsfs for o in prev["objs"]):
+            return None
+        ots = [(i, tsfs[o["desc"]]) for i, o in enumerate(prev["objs"]) if o["cls"] == 0] + \
+              [(i, tsfs[o["desc"]]) for i, o in enumerate(prev["objs"]) if o["cls"] == 1]
+        if all(t == 1 for _, t in ots):
+            return None
+        return (head + "sched %s %d %s" % (st.group(1), len(ots), " ".join("%d %d" % x for x in ots)) + tail, True)
     if op == "set" and "SCRIPT err=ok" in blk:
         k = obj_index(prev, ("colvar_" if ev["kind"] == "colvar" else "bias_") + ev["name"])
         if k is None or ev["fid"] >= len(prev["objs"][k]["fs"]):
@@ -618,6 +665,20 @@ W_U = ("natoms 2\ntemperature 300.0\nnew\nconfig EOF\n" + XE + HARM % ("h", "  w
        "pos 1 0 0 1.0\nstep\ndumpdeps\nscript cv bias h delete\ndumpdeps\npos 1 0 0 1.5\nstep\necho END\n")
 
 
+# F8 (repair on fix-C13-4: "fix: a restraint with outputAccumulatedWork switched on by script could not read the state it had
+# written"): the state written by a session must be readable by it
+F8 = "script-set-accumulated-work-state-unreadable"
+W_F8 = ("natoms 2\nnew\nconfig EOF\n" + XZ + HARM % ("h", "") + "EOF\nscriptset bias h 6 1\npos 1 0 0 1.0\nstep\n"
+        "save text w8.colvars.state\nload w8\nsave binary w8b.colvars.state\nload w8b\npos 1 0 0 2.0\nstep\necho END\n")
+
+
+# N: default names.  Two unnamed harmonic restraints (harmonic1, harmonic2), the older one deleted, a third defined: it must not
+# take the name of the survivor; then the survivor is deleted BY NAME: exactly the third one must remain
+HARM_U = "harmonic {\n  colvars x\n  centers %s\n  forceConstant 2.0\n}\n"
+W_N = ("natoms 2\nnew\nconfig EOF\n" + XZ + HARM_U % "0.0" + HARM_U % "1.0" + "EOF\npos 1 0 0 1.0\nstep\nscript cv bias harmonic1 delete\n"
+       "config EOF\n" + HARM_U % "2.0" + "EOF\ndumpdeps\nscript cv bias harmonic2 delete\ndumpdeps\npos 1 0 0 1.5\nstep\necho END\n")
+
+
 def run_scn(unit, d, text, name="w.scn"):
     p = os.path.join(d, name)
     open(p, "w").write(text)
@@ -676,6 +737,29 @@ def replay_witnesses(run, unit, d, tabs, model):
         if "err=ok" not in (A or [""])[0] or not obs_equal(A, B):
             run.violation(F7 + ":observables", "switching scaledBiasingForce on by script (no map) changes the step results: %s instead of %s" % (A, B),
                           {"kind": "identity", "scenario": W_F7, "reference": W_F7_REF})
+    # F8: a fixed restraint with output_accumulated_work enabled by script writes a state that it reads back
+    rc, o, e = run_scn(unit, d, W_F8)
+    run.count("witness:F8", True)
+    loads = [l for l in o.split("\n") if l.startswith("LOAD")]
+    if "echo END" not in o or len(loads) != 2 or any("err=ok" not in l for l in loads):
+        run.violation(F8, "harmonic h (fixed centers), `cv bias h set \"output_accumulated_work\" 1`, a step, state written and read back: %s "
+                      "(set_state_params requires the keyword accumulatedWork, get_state_params writes it only for moving restraints)" % " | ".join(loads),
+                      {"kind": "scenario", "scenario": W_F8})
+    # N: default names of unnamed biases stay distinct; deletion by name hits the right object
+    rc, o, e = run_scn(unit, d, W_N)
+    dumps = D.parse_deps_blocks(o.split("\n"))
+    run.count("witness:N", True)
+    if "echo END" not in o or len(dumps) != 2:
+        run.violation("witness:N:crash", "the witness of default names does not run (rc=%d): %s" % (rc, (o[-200:] + e[-200:])), {"kind": "scenario", "scenario": W_N})
+    else:
+        n1 = [t for c, t in D.monitor_links(dumps[0]) if c == "N1"]
+        left = [ob["desc"] for ob in dumps[1]["objs"] if ob["cls"] == 0]
+        if n1:
+            run.violation("default-name-collision", "harmonic, harmonic (both unnamed), `cv bias harmonic1 delete`, a third unnamed harmonic: %s" % n1[0],
+                          {"kind": "scenario", "scenario": W_N})
+        elif left != ["bias_harmonic3"]:
+            run.violation("default-name-collision", "after `cv bias harmonic2 delete` the remaining biases are %s instead of [bias_harmonic3]" % left,
+                          {"kind": "scenario", "scenario": W_N})
     # U: user feature referenced by a bias survives the deletion of the bias
     rc, o, e = run_scn(unit, d, W_U)
     dumps = D.parse_deps_blocks(o.split("\n"))
@@ -784,7 +868,7 @@ def check(run):
     if st is None:
         return
     model, exes = st
-    unit = exes["c13unit"]
+    unit = os.environ.get("C13_UNIT_OVERRIDE") or exes["c13unit"]      # e.g. a gcov-instrumented build (coverage measurement)
     d = V.scratch("C13")
 
     replay_witnesses(run, unit, d, tabs_same, model)
@@ -814,7 +898,25 @@ def check(run):
         prev = {"objs": [], "atoms": {}}
         prev_bad = set()
         tainted = False
+        tsfs = tsf_map(seq)
+        nops, live_b = [], {}          # naming model: operations, and the unnamed biases believed alive (name -> (kind index, rank))
         for i, (ev, blk) in enumerate(zip(seq["events"], blocks)):
+            if ev["op"] == "addbias":
+                bb = ev["bias"]
+                kidx = BIAS_KINDS.index(bb["kind"])
+                okdef = "CONFIG err=ok" in blk
+                if bb.get("rank") is not None:
+                    nops.append("D %d %d %d" % (kidx, 1 if bb.get("unnamed") else 0, 1 if okdef else 0))
+                    if bb.get("unnamed") and okdef:
+                        live_b[bb["name"]] = (kidx, bb["rank"])
+            elif ev["op"] == "delbias" and ev["name"] in live_b and "SCRIPT err=ok" in blk:
+                nops.append("X %d %d" % live_b.pop(ev["name"]))
+            elif ev["op"] == "delcv" and "SCRIPT err=ok" in blk:
+                for bn in ev.get("also", []):
+                    if bn in live_b:
+                        nops.append("X %d %d" % live_b.pop(bn))
+            elif ev["op"] == "reset":
+                nops.append("R"); live_b = {}
             run.dist("event:" + ev["op"])
             dumps = D.parse_deps_blocks(blk.split("\n"))
             if not dumps:
@@ -824,7 +926,7 @@ def check(run):
             part = {"id": seq["id"], "samestep": seq["samestep"], "events": seq["events"][:i + 1]}
             # model replay of the event (deletion of a bias / of a variable with its biases, reset, script set of a
             # feature; structure only for definitions)
-            mc = module_case(ev, blk, prev, cur, lag)
+            mc = module_case(ev, blk, prev, cur, lag, tsfs)
             if mc is not None:
                 mlines.append(mc[0])
                 mexpect.append(("mop", ev["op"], cur, part, mc[1], None))
@@ -835,9 +937,20 @@ def check(run):
                 lk = D.monitor_links(cur)
                 mlines.append("MOP %d %d check %s" % (lag, FUEL, D.encode_mstate(cur, NATOMS)))
                 mexpect.append(("chk", "%d %d" % (0 if any(c != "A1" for c, _ in lk) else 1, 0 if any(c == "A1" for c, _ in lk) else 1), cur, part, None, None))
+            if ev["op"] == "saveload":
+                run.dist("saveload:" + ev["fmt"])
+                if ("SAVE err=ok" not in blk or "LOAD err=ok" not in blk) and not tainted and prev["objs"]:
+                    tainted = True
+                    run.violation("saveload:error", "after event %d: a state written by this session (%s) is not read back by it: %s" % (
+                        i, ev["fmt"], " ".join(l for l in blk.split("\n") if l.startswith(("SAVE", "LOAD")))), {"kind": "scenario", "scenario": scenario(part)})
             bad = D.monitor(tabs, cur) + D.monitor_links(cur) + D.monitor_engine(tabs, cur)
-            if ev["op"] in ("delbias", "delcv", "step"):
+            if ev["op"] in ("delbias", "delcv", "step", "saveload"):
                 bad += D.monitor_user(tabs, prev, cur)
+            if ev["op"] == "saveload" and D.encodable(prev) and D.encodable(cur) and D.mstate_key(prev) != D.mstate_key(cur) and not tainted:
+                # reading back what was just written changes no dependency state, no link, no atom count
+                tainted = True
+                run.violation("saveload:deps-state", "after event %d: writing the state and reading it back changed the dependency state" % i,
+                              {"kind": "scenario", "scenario": scenario(part)})
             need = D.need_counts(tabs, cur)
             leak = sum(1 for oi, ob in enumerate(cur["objs"]) for g, f in enumerate(ob["fs"]) if f[2] > need[oi][g])
             run.dist("dump:ref_count-above-accounted-need" if leak else "dump:ref_count-equals-accounted-need")
@@ -856,6 +969,15 @@ def check(run):
                 run.violation(sig, "after event %d (%s) of a define/delete history: %s" % (i, ev["op"], text),
                               {"kind": "scenario", "scenario": scenario(part), "monitor": text})
             prev = cur
+        if final is not None and all("rank" in e["bias"] and e["bias"]["rank"] is not None for e in seq["events"] if e["op"] == "addbias"):
+            # default names: the extracted naming model against the names of the unnamed biases alive in the last dump
+            import re as _re
+            pat = _re.compile(r"^bias_(%s)(\d+)$" % "|".join(k.lower() for k in BIAS_KINDS))
+            explicit = set("bias_" + e["bias"]["name"] for e in seq["events"] if e["op"] == "addbias" and not e["bias"].get("unnamed"))
+            have = sorted("%d:%d" % ([k.lower() for k in BIAS_KINDS].index(m.group(1)), int(m.group(2)))
+                          for m in (pat.match(o["desc"]) for o in final["objs"] if o["cls"] == 0 and o["desc"] not in explicit) if m)
+            mlines.append("NAMES " + " ".join(nops))
+            mexpect.append(("names", " ".join(have), None, {"id": seq["id"], "samestep": seq["samestep"], "events": seq["events"]}, None, None))
         if final is None or seq.get("enum"):
             continue
         # (2) primitive-step correspondence from the reached state
@@ -887,6 +1009,12 @@ def check(run):
     if len(mout) != len(mlines):
         run.mismatch("primitive:model-run", {"n": len(mlines)}, "%d cases" % len(mlines), "%d answers (rc=%d) %s" % (len(mout), rc, e[-300:]))
     for ml, mo, ex in zip(mlines, mout, mexpect):
+        if ex[0] == "names":
+            run.count(ml, True)
+            run.dist("model:default-names")
+            if sorted(mo.split()) != sorted(ex[1].split()):
+                run.mismatch("default-names", {"scenario": scenario(ex[3]), "model_case": ml}, "unnamed biases alive: " + ex[1], mo[:200])
+            continue
         if ex[0] == "chk":
             _, pyverdict, cur, part, _, _ = ex
             run.count(ml, True)
@@ -995,6 +1123,10 @@ def check(run):
         run.dist("identity:histories:enumerated" if seq.get("enum") else "identity:histories")
         run.dist("identity:deletions", ndeleted)
         compare_identity(run, seq, ref, f1[-1], f2[-1], o1, o2, tabs, f1_hit, f2_hit)
+    if os.environ.get("C13_XSESSION"):
+        # exploratory, off by default: its first differences are not triaged yet (stale values of sleeping variables that a fresh
+        # session has never computed; one LOAD err=input) -- see NOTES.md, residue
+        cross_session_stream(run, unit, 8 if quick else 150)
     if not quick:
         asan_stream(run, 300)
     run.cov["correspondence"].update({"histories": len(seqs), "primitive_cases": nprim, "module_event_cases": ndel, "identity_histories": len(id_items), "enumerated_histories": len(enum_seqs)})
@@ -1030,6 +1162,61 @@ def asan_stream(run, n):
         elif "echo END" not in o:
             run.violation("asan:crash", "the engine simulator (sanitizer build) died (rc=%d) during a define/delete history: %s" % (rc, e[-300:]),
                           {"kind": "scenario", "scenario": sc, "variant": "asan"})
+
+
+def cross_session_stream(run, unit, n):
+    """a state written after a define/delete history (unnamed biases included) is loaded into a FRESH session that defines the
+    surviving objects in another order (the default names of the first session given explicitly): the next step must give what
+    the first session gives when it simply continues.  Everything in the state file is found by name."""
+    r = V.rng("C13-xsession")
+    d = V.scratch("C13x")
+    for k in range(n):
+        seq = gen_sequence(r, k, r.randint(6, 30), with_set=False)
+        seq["samestep"] = 1
+        ref, lcv, lb = survivors_only(seq)
+        adds_cv = [e for e in ref["events"] if e["op"] == "addcv"]
+        adds_b = [e for e in ref["events"] if e["op"] == "addbias"]
+        if not adds_cv or not adds_b:
+            continue
+        fmt = r.choice(["text", "binary"])
+        pos = [(a, V.dyadic(r, -3, 3, 4), V.dyadic(r, -3, 3, 4), V.dyadic(r, -3, 3, 4)) for a in range(1, NATOMS + 1)]
+        step = event_lines({"op": "step", "pos": pos})
+        s1 = scenario(seq, dumps=False, tail=["save %s x.colvars.state" % fmt] + step)
+        rc1, o1, e1 = run_scn(unit, d, s1, "x1.scn")
+        dumps = D.parse_deps_blocks(o1.split("\n"))
+        if "echo END" not in o1 or "err=input" in o1 or "err=error" in o1 or not dumps or "SAVE err=ok" not in o1:
+            run.dist("xsession:skipped")
+            continue
+        if any(o["cls"] == 1 and o["fs"] and not o["fs"][0][1] for o in dumps[-1]["objs"]):
+            run.dist("xsession:skipped-inactive-variable")      # finding F2: a variable switched off by a deletion
+            continue
+        r.shuffle(adds_cv); r.shuffle(adds_b)
+        L = start_lines(seq)
+        for e in adds_cv:
+            L += event_lines(e)
+        for e in adds_b:
+            conf = e["bias"]["conf"]
+            if e["bias"].get("unnamed"):
+                head, _, rest = conf.partition("\n")
+                conf = head + "\n  name " + e["bias"]["name"] + "\n" + rest
+            L += ["config EOF"] + conf.rstrip("\n").split("\n") + ["EOF"]
+        L += ["load x"] + step + ["echo END"]
+        s2 = "\n".join(L) + "\n"
+        rc2, o2, e2 = run_scn(unit, d, s2, "x2.scn")
+        run.count("xsession:%d" % k, True)
+        run.dist("xsession:" + fmt)
+        if "echo END" not in o2 or "LOAD err=ok" not in o2:
+            run.violation("xsession:load", "a state written after a define/delete history is not read by a fresh session that defines the same objects "
+                          "in another order: %s" % " ".join(l for l in o2.split("\n") if l.startswith("LOAD"))[:200], {"kind": "identity", "scenario": s1, "reference": s2})
+            continue
+        def block(text):
+            idx = text.rfind("\nSTEP ")
+            return sorted(l for l in text[idx + 1:].split("\n") if l.split() and l.split()[0] in ("STEP", "ENERGY", "CV", "BIAS", "ATOMF"))
+        A, B = block(o1), block(o2)
+        if not obs_equal(A, B):
+            run.violation("xsession:observables", "the step after loading the state in a fresh session that defines the objects in another order differs from "
+                          "the continued run: %s instead of %s" % ([l for l in B if l not in A][:4], [l for l in A if l not in B][:4]),
+                          {"kind": "identity", "scenario": s1, "reference": s2})
 
 
 def table_oracles(run, tabs, label):
